@@ -56,6 +56,7 @@ var cfgs = map[string]reftable.Config{
 	"unaligned": {Unaligned: true},
 	"bs128":     {BlockSize: 128},
 	"exact":     {ExactLogMessage: true},
+	"highui":    {}, // the first transaction is written at update index 2^32
 }
 
 var txnOps = []Op{{Kind: "set", Name: "refs/a"}, {Kind: "del", Name: "refs/a"}, {Kind: "log", Name: "refs/a"}, {Kind: "tag", Name: "refs/b"},
@@ -216,6 +217,9 @@ func (r *runner) apply(l *live, o Op, h *History, check bool) (applicable bool) 
 		}
 	default:
 		ui := l.st.NextUpdateIndex()
+		if h.Cfg == "highui" && ui == 1 {
+			ui = 1 << 32
+		}
 		t := hx.Txn{ID: fmt.Sprintf("s%d", l.step)}
 		switch o.Kind {
 		case "set":
@@ -504,11 +508,11 @@ func (r *runner) explore(h *History, b bounds, wi, wn int, depth0 *int) {
 // RunC07 runs the history search for worker wi of wn.
 func RunC07(prop, tier string, wi, wn int, sink Sink) {
 	quick := tier != "thorough"
-	names := []string{"default", "s256"}
+	names := []string{"default", "s256", "highui"}
 	b := bounds{txns: 3, comps: 2}
 	bAuto := bounds{txns: 5}
 	if !quick {
-		names = []string{"default", "s256", "unaligned", "bs128", "exact"}
+		names = []string{"default", "s256", "unaligned", "bs128", "exact", "highui"}
 		b = bounds{txns: 4, comps: 2}
 		bAuto = bounds{txns: 6}
 	}
